@@ -12,7 +12,8 @@ From Coq Require Import List Arith Lia Bool ZArith Ring.
 From NV.Lib Require Import RingMat.
 From NV.C01 Require Import Model.
 From Coq Require Import QArith Qcanon.
-From NV.C04 Require Import Model Proofs1 Proofs2 Exec.
+From NV.C04 Require Import Model Proofs1 Proofs2 Exec ModelSwap Proofs3.
+From Coq Require Import Permutation.
 Close Scope Q_scope.
 Close Scope Qc_scope.
 Import ListNotations.
@@ -195,6 +196,52 @@ Print Assumptions xyz_ordered_flip_pixdim.
 Example xyz_ordered_flip_example :
   xyz_flip_axis Z Z.add Z.mul Z.opp (fun x => Z.ltb x 0) (-1)%Z 4%Z 4%Z = (1%Z, 0%Z, true).
 Proof. vm_compute. reflexivity. Qed.
+
+(* VolumeImg.xyz_ordered, axis-swap loop (volume_img.py:270-275, model ModelSwap.swap_loop):
+   for a state list of ANY length with ARBITRARY keys (axis_numbers), the while loop
+   terminates - every recursion bound >= the number of inversions gives a result -, the body
+   (`_swapaxes(first_inversion+1, first_inversion)`) runs exactly inv_count times, the final
+   axis_numbers are non-decreasing and the final state is a rearrangement of the initial
+   (column, data axis) pairs. *)
+Theorem xyz_swap_loop_terminates_sorted :
+  forall (X : Type) (key : X -> nat) (fuel : nat) (l : list X),
+    inv_count key l <= fuel ->
+    exists r tr, swap_loop key fuel l = Some (r, tr) /                 sortedb (map key r) = true /\ Permutation l r /\ length tr = inv_count key l.
+Proof. exact @swap_loop_terminates. Qed.
+Print Assumptions xyz_swap_loop_terminates_sorted.
+
+(* ... and length^2 is such a bound (the bound the correspondence uses) *)
+Theorem xyz_swap_loop_terminates_within_square :
+  forall (X : Type) (key : X -> nat) (l : list X),
+    exists r tr, swap_loop key (length l * length l) l = Some (r, tr) /                 sortedb (map key r) = true /\ Permutation l r /\ length tr = inv_count key l.
+Proof. exact @swap_loop_terminates_sq. Qed.
+Print Assumptions xyz_swap_loop_terminates_within_square.
+
+(* the whole loop (any number of swaps, any number of axes, any key function, any ring) keeps
+   the world position of every datum: with j a = index of the datum along ORIGINAL data axis a,
+   the new affine columns applied to the index under which the permuted array shows that datum
+   (position k holds j(axis_k)) give, in every world row, what the original columns gave at j. *)
+Theorem xyz_swap_loop_preserves_world :
+  forall (R : Type) (r0 r1 : R) (radd rmul rsub : R -> R -> R) (ropp : R -> R)
+         (Rth : ring_theory r0 r1 radd rmul rsub ropp (@eq R))
+         (key : list R * nat -> nat) (fuel : nat) (cols : list (list R)) (r : state R) (tr : list nat),
+    swap_loop key fuel (init_state R cols) = Some (r, tr) ->
+    forall (row : nat) (brow : R) (j : nat -> R),
+      (radd (lin_coord_new R r0 radd rmul row (map fst r) (new_index R r j)) brow)
+      = (radd (lin_coord_new R r0 radd rmul row cols (map j (seq 0 (length cols)))) brow).
+Proof. exact swap_loop_preserves_world. Qed.
+Print Assumptions xyz_swap_loop_preserves_world.
+
+(* non-vacuity: world axes (z, x, y) on data axes (0, 1, 2): axis_numbers [2;0;1], two swaps
+   (first inversions 0 then 1), final columns in x, y, z order showing data axes 1, 2, 0;
+   a loop that is given too little fuel does not return *)
+Example xyz_swap_loop_example :
+  swap_loop (fun ca : list Z * nat => match fst ca with [0;0;_] => 2 | [0;_;_] => 1 | _ => 0 end%Z) 9
+            (init_state Z [[0;0;2];[-1;0;0];[0;3;0]]%Z)
+  = Some ([([-1;0;0]%Z, 1); ([0;3;0]%Z, 2); ([0;0;2]%Z, 0)], [0; 1])
+  /\ swap_loop (fun n : nat => n) 1 [2; 0; 1] = None
+  /\ inv_count (fun n : nat => n) [2; 0; 1] = 2.
+Proof. vm_compute. repeat split; reflexivity. Qed.
 
 (* ================================================================== (2) consequences under the interpolation-oracle contract
    interp o m c p : value the external sampler returns at source-voxel
